@@ -8,6 +8,7 @@ import (
 	"encoding/hex"
 	"fmt"
 	"os"
+	"regexp"
 	"slices"
 	"sort"
 	"strconv"
@@ -1000,6 +1001,11 @@ func cdcExecCodecOp(ctx *cdcOpCtx, line string) string {
 }
 
 // ---------------------------------------------------------------------------------------
+var cdcNanosRe = regexp.MustCompile(`\|(c|u):(-?\d+)\.\d+`)
+
+// cdcDropNanos removes the sub-second part of the created / updated fields of a canonical line.
+func cdcDropNanos(s string) string { return cdcNanosRe.ReplaceAllString(s, "|$1:$2") }
+
 // rt: one resource through one codec stack, three ways
 
 func cdcExecRT(ctx *cdcOpCtx, line string, a Args) string {
@@ -1268,7 +1274,9 @@ func cdcExecMal(a Args) string {
 				return "res=ok:" + want + " stable=VIOLATED:redecode-error:" + cdcHx(string(text))
 			}
 
-			if got := cdcCanonRes(yr2.Resource()); got != want {
+			// the YAML form carries timestamps with second resolution (metadata.go: Format(time.RFC3339)) while the
+			// parser also accepts fractions: stability is demanded up to the sub-second part
+			if got := cdcCanonRes(yr2.Resource()); cdcDropNanos(got) != cdcDropNanos(want) {
 				return "res=ok:" + want + " stable=VIOLATED:changed:" + got
 			}
 
@@ -1293,7 +1301,7 @@ func cdcExecMal(a Args) string {
 				return "res=ok:" + want + " stable=VIOLATED:redecode-error:" + cdcHx(string(text))
 			}
 
-			if got := cdcCanonMeta(&md2); got != want {
+			if got := cdcCanonMeta(&md2); cdcDropNanos(got) != cdcDropNanos(want) {
 				return "res=ok:" + want + " stable=VIOLATED:changed:" + got
 			}
 
